@@ -302,7 +302,9 @@ impl Env {
         }
     }
 
-    pub fn build() -> Env {
+    /// `Err` = the scratch proposals from which the pending transactions are built already violate
+    /// the property (reported as a violation by the caller, not as a harness failure).
+    pub fn build() -> Result<Env, String> {
         let u = uni::build();
         let net = u.network;
         let addr_sapling = Address::Sapling(u.keys.ufvk_f.sapling().unwrap().default_address().1);
@@ -326,7 +328,8 @@ impl Env {
         env.starts.push(("short", db::snapshot(ws.db.conn()), uni::F, uni::SHORT_TIP));
 
         // Pending transaction 0: built at target T0+1, spends what a 30_000 payment selects.
-        env.pend.push(build_pending(&env, &mut w, uni::T0 + 1, 30_000, &[]));
+        let p0 = build_pending(&env, &mut w, uni::T0 + 1, 30_000, &[])?;
+        env.pend.push(p0);
         // Pending transaction 1: built at target T0+2 (one empty block later) with the inputs of
         // pending 0 locked away, so that it spends a disjoint set; 90_000 needs two notes.
         db::restore(w.db.conn_mut(), &env.starts[0].1);
@@ -334,18 +337,19 @@ impl Env {
         let c1 = ChainDesc { base_upto: uni::T0, dynb: vec![None] };
         env.scan(&mut w, &c1, uni::T0 + 1, uni::T0 + 1, true).expect("scratch advance");
         let lock: Vec<NoteKey> = env.pend[0].spends.iter().map(|i| NoteKey::U(*i)).collect();
-        env.pend.push(build_pending(&env, &mut w, uni::T0 + 2, 90_000, &lock));
+        let p1 = build_pending(&env, &mut w, uni::T0 + 2, 90_000, &lock)?;
+        env.pend.push(p1);
         let (a, b) = (&env.pend[0].spends, &env.pend[1].spends);
         assert!(a.iter().all(|x| !b.contains(x)), "pending transactions spend disjoint note sets");
         let _ = net;
-        env
+        Ok(env)
     }
 }
 
 /// Build a real transaction on the scratch wallet `w` (whose target height must be
 /// `expect_target`): propose a standard transfer of `amount` to the foreign Sapling address and
 /// create it with the repository's builder (Sapling mock provers: proofs are not in scope here).
-fn build_pending(env: &Env, w: &mut Wallet, expect_target: u32, amount: u64, locked: &[NoteKey]) -> Pending {
+fn build_pending(env: &Env, w: &mut Wallet, expect_target: u32, amount: u64, locked: &[NoteKey]) -> Result<Pending, String> {
     use sapling::note_encryption::{try_sapling_note_decryption, PreparedIncomingViewingKey, Zip212Enforcement};
     use sapling::prover::mock::{MockOutputProver, MockSpendProver};
     let u = &env.u;
@@ -368,10 +372,30 @@ fn build_pending(env: &Env, w: &mut Wallet, expect_target: u32, amount: u64, loc
         None,
         None,
     )
-    .unwrap_or_else(|e| panic!("scratch proposal for pending tx failed: {e:?}"));
-    assert_eq!(u32::from(proposal.min_target_height()), expect_target);
+    .map_err(|e| format!("setup: a standard transfer of {amount} from the fully scanned wallet (target height {expect_target}) is refused: {e:?}"))?;
+    if u32::from(proposal.min_target_height()) != expect_target {
+        return Err(format!("setup: proposal target height {} != chain tip + 1 = {expect_target}", u32::from(proposal.min_target_height())));
+    }
     let step = proposal.steps().first();
     let fee = u64::from(step.balance().fee_required());
+    // the same ground-truth clauses the exploration applies, in the setup state (everything
+    // scanned, no locks except the scratch lock, nothing pending)
+    for n in step.shielded_inputs().iter().flat_map(|s| s.notes().iter()) {
+        let txid: [u8; 32] = *n.txid().as_ref();
+        let pool = pool_of(n.note().pool());
+        let idx = n.output_index() as usize;
+        let t = u.notes.iter().find(|t| t.txid == txid && t.pool == pool && t.output_index == idx).ok_or_else(|| format!("setup: selected input {}:{pool:?}:{idx} is not a note of the ground truth", hex::encode(txid)))?;
+        let name = t.label.unwrap_or("?");
+        if t.owner != Owner::A {
+            return Err(format!("setup: selected input {name} belongs to account {:?}, not to the requested account A", t.owner));
+        }
+        if u.chains[0].blocks.values().any(|b| b.txs.iter().any(|x| x.spent.contains(&t.id))) {
+            return Err(format!("setup: selected input {name} is spent on chain"));
+        }
+        if locked.contains(&NoteKey::U(t.id)) {
+            return Err(format!("setup: selected input {name} is locked by another owner"));
+        }
+    }
     let txids = create_proposed_transactions::<_, _, Infallible, _, Infallible, _>(
         w.db.db_mut(),
         &u.network,
@@ -382,7 +406,7 @@ fn build_pending(env: &Env, w: &mut Wallet, expect_target: u32, amount: u64, loc
         &proposal,
         None,
     )
-    .unwrap_or_else(|e| panic!("scratch create_proposed_transactions failed: {e:?}"));
+    .map_err(|e| format!("setup: create_proposed_transactions failed on the wallet's own proposal: {e:?}"))?;
     let txid = *txids.first();
     let tx = w.db.get_transaction(txid).expect("get_transaction").expect("created transaction is stored");
     let bundle = tx.sapling_bundle().expect("pending transactions are Sapling transactions");
@@ -416,5 +440,5 @@ fn build_pending(env: &Env, w: &mut Wallet, expect_target: u32, amount: u64, loc
     let in_total: u64 = spends.iter().map(|i| u.notes[*i].value).sum();
     let out_total: u64 = outs.iter().map(|o| o.value).sum();
     assert_eq!(in_total, out_total + fee, "pending transaction balances");
-    Pending { txid: txid.as_ref().clone(), ctx, build_target: expect_target, expiry: u32::from(tx.expiry_height()), spends, outs, fee, tx }
+    Ok(Pending { txid: txid.as_ref().clone(), ctx, build_target: expect_target, expiry: u32::from(tx.expiry_height()), spends, outs, fee, tx })
 }
